@@ -147,6 +147,19 @@ MUTANTS = [
                  "                    FD_RULES[(step_ratio, parity, num_terms)] = fd_rules\n"),
                 ("        fd_rule = self.rule(step_ratio)\n\n        num_steps = h.shape[0]",
                  "        with _LOCK_B:\n            fd_rule = self.rule(step_ratio)\n\n        num_steps = h.shape[0]")]),
+    # ------------------------------------------------------------------ behaviour-preserving refactors (must NOT be flagged)
+    dict(id='c09_refactor_cache_renamed', prop='C09', file=FD, expect='clean',
+         needs='nothing: the cache global is renamed (the dict seam is lost; the check must degrade, not alarm)',
+         edits=[("# step_ratio, parity, nterms\nFD_RULES = {}", "# step_ratio, parity, nterms\n_RULE_TABLES = {}"),
+                ("fd_rules = FD_RULES.get((step_ratio, parity, num_terms))", "fd_rules = _RULE_TABLES.get((step_ratio, parity, num_terms))"),
+                ("FD_RULES[(step_ratio, parity, num_terms)] = fd_rules", "_RULE_TABLES[(step_ratio, parity, num_terms)] = fd_rules")]),
+    dict(id='c09_refactor_no_cache', prop='C09', file=FD, expect='clean',
+         needs='nothing: the rule is recomputed on every request (slower, same bits)',
+         edits=[("        fd_rules = FD_RULES.get((step_ratio, parity, num_terms))\n        if fd_rules is None:\n",
+                 "        fd_rules = None\n        if fd_rules is None:\n")]),
+    dict(id='c14_refactor_epsalg_numpy_table', prop='C14', file=EXT, expect='clean',
+         needs='nothing: abs() instead of np.abs() in the vanishing-difference guard',
+         edits=[("                if np.abs(delta) <= 1.0e-60:", "                if abs(delta) <= 1.0e-60:")]),
     # ------------------------------------------------------------------ equivalent mutant (must NOT be flagged)
     dict(id='c09_equiv_lookup_copy', prop='C09', file=FD, expect='clean',
          needs='nothing: returning a copy of the cached row is behaviour preserving',
